@@ -317,6 +317,15 @@ def pred_c13(prog, tr):
             if not er:
                 continue
             last = er["chain"][-1]
+            if "panicErr" in er["chain"]:
+                # a recovered panic is the root cause whatever its value is or wraps (a panic value may itself be an
+                # error, even one that wraps a genuine dig error of some other container)
+                idx = er["chain"].index("panicErr")
+                if not er["root"].startswith("panic:"):
+                    bad.append("op %d: PanicError is not the root cause (%s)" % (i, er["root"]))
+                if er["cyc"] != ("cycle" in er["chain"][:idx]):
+                    bad.append("op %d: IsCycleDetected=%s for a recovered panic (chain %s)" % (i, er["cyc"], ">".join(er["chain"])))
+                continue
             if last == "user":
                 if not er["root"].startswith("user:") or not er["is"]:
                     bad.append("op %d: user error not recoverable by RootCause/errors.Is (%s)" % (i, er["root"]))
